@@ -41,6 +41,179 @@ func envGet(env string, v ssa.Value) (val bool, known bool) {
 	return strings.HasPrefix(rest, "1"), true
 }
 
+const (
+	intNegInf = int64(-1) << 62
+	intPosInf = int64(1) << 62
+)
+
+// envGetInt / envSetInt: what the path knows about an integer value, as an interval (entries "name@lo,hi").
+func envGetInt(env string, v ssa.Value) (lo, hi int64, known bool) {
+	lo, hi = intNegInf, intPosInf
+	if lenOf(v) != nil {
+		lo = 0
+	}
+	if bt, ok := v.Type().Underlying().(*types.Basic); ok && bt.Info()&types.IsUnsigned != 0 {
+		lo = 0
+	}
+	if isRangeIndex(v) {
+		lo = 0
+	}
+	if env == "" || v == nil {
+		return lo, hi, lo != intNegInf
+	}
+	key := ";" + v.Name() + "@"
+	i := strings.Index(";"+env, key)
+	if i < 0 {
+		return lo, hi, lo != intNegInf
+	}
+	rest := (";" + env)[i+len(key):]
+	if j := strings.Index(rest, ";"); j >= 0 {
+		rest = rest[:j]
+	}
+	var a, b int64
+	if _, err := fmt.Sscanf(rest, "%d,%d", &a, &b); err == nil {
+		if a > lo {
+			lo = a
+		}
+		if b < hi {
+			hi = b
+		}
+		return lo, hi, true
+	}
+	return lo, hi, lo != intNegInf
+}
+
+func envSetInt(env string, v ssa.Value, lo, hi int64) string {
+	name := v.Name()
+	var parts []string
+	for _, p := range strings.Split(env, ";") {
+		if p == "" || strings.HasPrefix(p, name+"@") {
+			continue
+		}
+		parts = append(parts, p)
+	}
+	parts = append(parts, fmt.Sprintf("%s@%d,%d", name, lo, hi))
+	sort.Strings(parts)
+	if len(parts) > envMax {
+		parts = parts[len(parts)-envMax:]
+	}
+	return strings.Join(parts, ";")
+}
+
+// intRelConst: c as `x <op> k` for an integer x and a constant k (canonical form), if it is one.
+func intRelConst(c ssa.Value) (x ssa.Value, op token.Token, k int64, ok bool) {
+	bin, isB := c.(*ssa.BinOp)
+	if !isB {
+		return nil, 0, 0, false
+	}
+	switch bin.Op {
+	case token.LSS, token.LEQ, token.GTR, token.GEQ, token.EQL, token.NEQ:
+	default:
+		return nil, 0, 0, false
+	}
+	if bt, isBasic := bin.X.Type().Underlying().(*types.Basic); !isBasic || bt.Info()&types.IsInteger == 0 {
+		return nil, 0, 0, false
+	}
+	r := canonRelation(Rel{bin.X, bin.Y, bin.Op})
+	kk, isC := constInt(r.Y)
+	if !isC {
+		return nil, 0, 0, false
+	}
+	if _, xc := r.X.(*ssa.Const); xc {
+		return nil, 0, 0, false
+	}
+	return r.X, r.Op, kk, true
+}
+
+// intervalDecides: does lo <= x <= hi decide `x op k`?
+func intervalDecides(lo, hi int64, op token.Token, k int64) (val bool, known bool) {
+	switch op {
+	case token.EQL:
+		if k < lo || k > hi {
+			return false, true
+		}
+		if lo == hi && lo == k {
+			return true, true
+		}
+	case token.NEQ:
+		if k < lo || k > hi {
+			return true, true
+		}
+		if lo == hi && lo == k {
+			return false, true
+		}
+	case token.LSS:
+		if hi < k {
+			return true, true
+		}
+		if lo >= k {
+			return false, true
+		}
+	case token.LEQ:
+		if hi <= k {
+			return true, true
+		}
+		if lo > k {
+			return false, true
+		}
+	case token.GTR:
+		if lo > k {
+			return true, true
+		}
+		if hi <= k {
+			return false, true
+		}
+	case token.GEQ:
+		if lo >= k {
+			return true, true
+		}
+		if hi < k {
+			return false, true
+		}
+	}
+	return false, false
+}
+
+// intervalAfter: the interval of x after `x op k` turned out `taken`.
+func intervalAfter(lo, hi int64, op token.Token, k int64, taken bool) (int64, int64) {
+	if !taken {
+		op = negOp(op)
+	}
+	switch op {
+	case token.EQL:
+		if k > lo {
+			lo = k
+		}
+		if k < hi {
+			hi = k
+		}
+	case token.NEQ:
+		if lo == k {
+			lo = k + 1
+		}
+		if hi == k {
+			hi = k - 1
+		}
+	case token.LSS:
+		if k-1 < hi {
+			hi = k - 1
+		}
+	case token.LEQ:
+		if k < hi {
+			hi = k
+		}
+	case token.GTR:
+		if k+1 > lo {
+			lo = k + 1
+		}
+	case token.GEQ:
+		if k > lo {
+			lo = k
+		}
+	}
+	return lo, hi
+}
+
 func envSet(env string, v ssa.Value, val bool, known bool) string {
 	name := v.Name()
 	var parts []string
@@ -85,7 +258,8 @@ func worthRemembering(v ssa.Value) bool {
 				n++
 			}
 		case *ssa.BinOp:
-			if x.Op == token.EQL || x.Op == token.NEQ {
+			switch x.Op {
+			case token.EQL, token.NEQ, token.LSS, token.LEQ, token.GTR, token.GEQ:
 				n++
 			}
 		}
@@ -147,6 +321,19 @@ func condOutcome(c ssa.Value, b *ssa.BasicBlock, pi int, pred *ssa.BasicBlock, e
 			return !v, k
 		}
 	case *ssa.BinOp:
+		if xv, op, k, ok := intRelConst(x); ok {
+			xr := res(xv) // a phi of this block: the value that flows in over the entry edge
+			if kc, isC := constInt(xr); isC {
+				if v, decided := intervalDecides(kc, kc, op, k); decided {
+					return v, true
+				}
+			}
+			if lo, hi, known := envGetInt(env, xr); known {
+				if v, decided := intervalDecides(lo, hi, op, k); decided {
+					return v, true
+				}
+			}
+		}
 		if x.Op == token.EQL || x.Op == token.NEQ {
 			l, r := res(x.X), res(x.Y)
 			if isNilConst(r) || isNilConst(l) {
@@ -272,6 +459,15 @@ func learnFromBranch(env string, c ssa.Value, taken bool, depth int) string {
 			return learnFromBranch(env, x.X, !taken, depth+1)
 		}
 	case *ssa.BinOp:
+		if xv, op, k, ok := intRelConst(x); ok && worthRemembering(xv) {
+			lo, hi, _ := envGetInt(env, xv)
+			lo, hi = intervalAfter(lo, hi, op, k, taken)
+			env = envSetInt(env, xv, lo, hi)
+			if worthRemembering(x) {
+				env = envSet(env, x, taken, true) // the comparison itself may feed a flag (`beyond := a || b`)
+			}
+			return env
+		}
 		if x.Op == token.EQL || x.Op == token.NEQ {
 			l, r := stripIfaceConv(x.X), stripIfaceConv(x.Y)
 			eq := taken == (x.Op == token.EQL)
@@ -334,6 +530,51 @@ func knownNonNil(v ssa.Value, at *ssa.BasicBlock, depth int) bool {
 		case strings.HasSuffix(n, "pkg/errors.Wrap") || strings.HasSuffix(n, "pkg/errors.Wrapf") || strings.HasSuffix(n, "pkg/errors.WithStack") || strings.HasSuffix(n, "pkg/errors.WithMessage"):
 			if len(x.Call.Args) > 0 {
 				return knownNonNil(x.Call.Args[0], at, depth+1)
+			}
+		}
+		// a local closure / module helper that wraps one of its arguments (`release := func(err error, s string)
+		// error { unlock(); return errors.Wrap(err, s) }`): non-nil if every return is, with its parameters
+		// standing for the arguments
+		var callee *ssa.Function
+		if mc, ok := x.Call.Value.(*ssa.MakeClosure); ok {
+			callee, _ = mc.Fn.(*ssa.Function)
+		} else if f := x.Call.StaticCallee(); f != nil && f.Pkg != nil && inModule(f.Pkg.Pkg) {
+			callee = f
+		}
+		if callee != nil && callee.Blocks != nil && depth < 3 {
+			rets := returnsOf(callee)
+			all := len(rets) > 0
+			for _, ret := range rets {
+				if len(ret.Results) == 0 {
+					all = false
+					break
+				}
+				for _, rv := range resultValues(ret, len(ret.Results)-1) {
+					ok := knownNonNil(rv, ret.Block(), depth+1)
+					if !ok {
+						// a wrap of a parameter whose argument is non-nil here
+						inner := rv
+						if cl, isCall := inner.(*ssa.Call); isCall && len(cl.Call.Args) > 0 {
+							cn := calleeName(&cl.Call)
+							if strings.HasSuffix(cn, "pkg/errors.Wrap") || strings.HasSuffix(cn, "pkg/errors.Wrapf") || strings.HasSuffix(cn, "pkg/errors.WithStack") || strings.HasSuffix(cn, "pkg/errors.WithMessage") {
+								inner = cl.Call.Args[0]
+							}
+						}
+						if p, isParam := inner.(*ssa.Parameter); isParam {
+							for i, cp := range callee.Params {
+								if cp == p && i < len(x.Call.Args) && knownNonNil(x.Call.Args[i], at, depth+1) {
+									ok = true
+								}
+							}
+						}
+					}
+					if !ok {
+						all = false
+					}
+				}
+			}
+			if all {
+				return true
 			}
 		}
 	case *ssa.UnOp:
@@ -434,8 +675,14 @@ func (n walkNode) effectiveIf(iff *ssa.If) *ssa.If {
 	if pi < 0 || pi >= len(phi.Edges) {
 		return iff
 	}
-	if _, isNot := iff.Cond.(*ssa.UnOp); isNot {
-		return iff // a negated phi condition is left alone
+	negated := false
+	for v := iff.Cond; ; {
+		u, ok := v.(*ssa.UnOp)
+		if !ok || u.Op != token.NOT {
+			break
+		}
+		negated = !negated
+		v = u.X
 	}
 	ev := phi.Edges[pi]
 	if _, isC := ev.(*ssa.Const); isC {
@@ -463,6 +710,10 @@ func (n walkNode) effectiveIf(iff *ssa.If) *ssa.If {
 	}
 	if _, isC := ev.(*ssa.Const); isC {
 		return iff
+	}
+	if negated {
+		// `if !flag` with flag = <comparison> on this path: the edge predicates see !<comparison>
+		return &ssa.If{Cond: &ssa.UnOp{Op: token.NOT, X: ev}}
 	}
 	return &ssa.If{Cond: ev}
 }
@@ -769,4 +1020,33 @@ func inlineMembership(use ssa.Instruction, v ssa.Value, elemOK, listOK func(ssa.
 		}
 	}
 	return sawTrue
+}
+
+// isRangeIndex: v is the index of a `for i := range s` / `for i, x := range s` loop as go/ssa builds it
+// (`i = phi[-1, i] + 1`), or a counted loop variable starting at a non-negative constant and only
+// incremented: never negative.
+func isRangeIndex(v ssa.Value) bool {
+	if b, ok := v.(*ssa.BinOp); ok && b.Op == token.ADD {
+		if k, isC := constInt(b.Y); isC && k == 1 {
+			if phi, ok := b.X.(*ssa.Phi); ok && len(phi.Edges) == 2 {
+				for i, e := range phi.Edges {
+					if k0, isC := constInt(e); isC && k0 == -1 && phi.Edges[1-i] == ssa.Value(b) {
+						return true
+					}
+				}
+			}
+		}
+	}
+	if phi, ok := v.(*ssa.Phi); ok && len(phi.Edges) == 2 {
+		for i, e := range phi.Edges {
+			if k0, isC := constInt(e); isC && k0 >= 0 {
+				if inc, ok := phi.Edges[1-i].(*ssa.BinOp); ok && inc.Op == token.ADD && inc.X == ssa.Value(phi) {
+					if k1, isC := constInt(inc.Y); isC && k1 > 0 {
+						return true
+					}
+				}
+			}
+		}
+	}
+	return false
 }
